@@ -44,6 +44,7 @@ static Meas run_one(const MCfg & c, int N, const std::string & path, uint64_t ss
     size_t base = alloc_live();
     alloc_reset_peak();
     sched_set_budget(0);
+    sched_set_timeouts(30);      // virtual time: a timed wait (if the library has any) may expire while the consumer stalls
     sched_begin(sseed, SCHED_STARVE, c.writing ? 2 : 0);
     {
         File f;
